@@ -128,6 +128,17 @@ _HIST['C10'] += ' Deep directed roots as in C02.'
 _HIST['C11'] += ' Short-end-time universes and a custom grid with size ratio 250 between close panels.'
 _HIST['C05'] = ' Constructor clause: every family requested by degree through the scheme constructors in one process (rule returned must be exact to the degree asked for), and again after 120 further schemes were built in the same process.'
 _HIST['C12'] = ' Universes with very short end times (2^-9, 2^-11) where only the seam / corner couples survive.'
+
+# ---- wave 13
+_HIST['C01'] += ' Virtual-quarters lifecycle: one operator serves the level meshes coarse-to-fine and back; on each, every (leaf, quarter) and (quarter, quarter) pair built with DummyElement.uniform_refinement is judged against the oracle (fresh process per curve and switch value).'
+_HIST['C03'] += ' Lifecycle mode 2: the operator created on the first mesh assembles a block of the final shape for other elements before the refined mesh is solved.'
+_HIST['C04'] += ' Vector routines (evaluate_vector, potential_vector) at one time on the level meshes one after the other on one operator (exact zero / agreement with the scalar routines); reports cut per tag so that known-finding hits cannot crowd out new violations.'
+_HIST['C05'] += ' Request forms: every key of every table also requested by parameter name (all named / first positional), table order and reverse; the rule returned must be the table entry.'
+_HIST['C06'] += ' The same indicator values as Fortran-ordered array and as strided view with decoy entries (mode A).'
+_HIST['C07'] += ' Sweep order on locally refined meshes: on every BFS state, point fixed and ALL leaves evaluated one after the other on one operator, then evaluate_vector, each value against the oracle at its class tolerance.'
+_HIST['C11'] += ' Universes on the time grid (0, 1/2, 2) (slab ratio 1:3: equal lags and equal sum of the two time lengths with different lengths).'
+_HIST['C17'] += ' The same mutation history (plus grow / shrink / reverse) on the serial loop of one operator; a repeated identical request is judged against the pairwise reference (a history-dependent result is a violation, not harness non-determinism).'
+_HIST['C18'] += ' Cross-curve construction histories: every ordered pair of eight curves meshed in one brand-new process (all grids incl. integer / half-integer grids; first, second, first again).'
 for _k, _t in _HIST.items():
     CHECKS[_k]['level_claimed']['text'] += _t
 NOTES += ' Thorough-tier wall times measured on this 16-core sandbox (partly under load from other jobs): C01 5 min, C02 6 min, C03 27 min, C04 1 min, C06 53 min, C07 6 min, C08 7 min, C09 3 min, C10 10 min, C11 2.5 min, C12 18 min, C13 56 min, C15 1.5 min, C16 6 min, C17 13 min, C19 14 min, C20 2 min; C05/C14/C18 under 30 s. Quick tier: 3 s (C05) to 80 s (C06, C08, C17), about 12 min for all twenty.'
